@@ -40,6 +40,8 @@ type trace struct {
 	Rt    bool              `json:"rt"`
 	Dlive bool              `json:"dlive"`
 	Avis  bool              `json:"avis"`
+	AvB   []string          `json:"avB"`  // view predicted by the OTHER variant of the stripper (before/after b6c6321)
+	LabB  string            `json:"labB"`
 	AvisI bool              `json:"avisI"`
 	LabI  string            `json:"labI"`
 }
@@ -565,7 +567,11 @@ func runLex(in *input, res *result) {
 			if pipe == "V" {
 				sig = "lex-validate:" + lab
 			}
-			if !modelled || lab == "none" {
+			if !modelled && pipe == "P" && tr.LabB != "" && tr.LabB != "none" && ar.view == collapse(concView(tr.AvB)) {
+				// the code behaves like the documented earlier variant of the model: name that mechanism
+				sig = "lex:" + tr.LabB
+				w.Note = "real arc output equals the pre-fix variant of ArcNorm (negative control), not the current model"
+			} else if !modelled || lab == "none" {
 				sig = "lex-unmodelled:" + lab
 				w.Note = "real arc output differs from the ArcNorm model and from DuckDB"
 			}
